@@ -49,7 +49,7 @@ def tags_in_text(text):
                 section = 'requires'
             elif re.match(r'ensures\b', st):
                 section = 'ensures'
-            if 'unimplemented!()' in st:
+            if 'unimplemented!()' in st or st.startswith('{') or st.endswith('{}'):
                 # tags on this very line still belong to the header
                 for m in TAG_RE.finditer(ln):
                     out.append((i + 1, m.group(1).split('+'), m.group(2), 'assumed' if section == 'ensures' else 'checked'))
